@@ -30,6 +30,28 @@ PROPS = {
         "trusted": ["the fragment hypothesis WithinFragment (every run and query application completes) delimits the theorem; outside it the model still follows the code and is compared differentially",
                     "interning between token table and authorizer table is covered by the correspondence (cases enter through builders, Serialize, Unmarshal, AuthorizerFor), not by an end-to-end simulation theorem"],
     },
+    "C07": {
+        "modules": ["BiscuitModel.Props.C07"],
+        "reference": True,
+        "oracle_pass": True,
+        "shards": {"quick": 1, "thorough": 12},
+        "trusted": ["google.golang.org/protobuf is not verified: Model/Wire is an independent encoder/decoder written from pb/biscuit.proto and compared byte-for-byte with what the library serializes (decode, resolve, re-encode blocks and envelope)",
+                    "round-trip theorems carry explicit size side conditions (values fit their wire types; total encoding below 2^64 bytes)"],
+    },
+    "C12": {
+        "modules": ["BiscuitModel.Props.C12"],
+        "reference": False,
+        "shards": {"quick": 1, "thorough": 12},
+        "trusted": ["theorems hold inside the error-free fragment (WithinFragment), as the property states; variable renaming is covered by the correspondence and the witness search, not by a theorem",
+                    "string-level model: interning order is invisible (results compared resolved)"],
+    },
+    "C18": {
+        "modules": ["BiscuitModel.Props.C18"],
+        "reference": False,
+        "shards": {"quick": 1, "thorough": 12},
+        "trusted": ["string-level save/load plus wire-level snapshot message (symbol re-indexing) for a fresh target authorizer, as the property states; loading into a non-fresh authorizer is outside the property",
+                    "protobuf-go's handling of malformed snapshot bytes is exercised (no panic), not modelled"],
+    },
     "C11": {
         "modules": ["BiscuitModel.Props.C11"],
         "reference": True,
